@@ -32,6 +32,12 @@ def cases(seed, tier):
         out.append({"group": "extra", "kind": "sharedbck", "seed": sub_seed(seed, "c08ys", i),
                     "first": ["euler", "rk4", "euler", "rk23"][i % 4], "preview_nograd": i % 3 != 2, "decreasing": rng.random() < 0.4,
                     "ncalls": rng.choice([2, 3])})
+    nab = 36 if tier == "quick" else 300
+    for i in range(nab):
+        rng = random.Random(sub_seed(seed, "c08z", i))
+        out.append({"group": "extra", "kind": "abort_reuse", "seed": sub_seed(seed, "c08zs", i), "method": ["rk45", "rk4", "rk23", "euler", "rk38"][i % 5],
+                    "holder": ["nn", "em", "nn_nested"][(i // 5) % 3], "decreasing": rng.random() < 0.4, "nt": rng.choice([2, 3, 5]),
+                    "phase": rng.choice(["fwd", "bwd", "bwd", "bwd_cg"]), "kfrac": rng.random()})
     return out
 
 
@@ -227,7 +233,146 @@ def run_sharedbck(desc):
     return obs.result()
 
 
+class _Injected(Exception):
+    pass
+
+
+def run_abort_reuse(desc):
+    """history on one object: a solve_ivp (+ backward) whose right-hand side raises at its k-th evaluation is caught, then the same object is
+    used for a fresh solve_ivp + backward: sensitivities w.r.t. the object's tensors, y0 and ts against the closed form of
+    dy/dt = -(a + c t) y  (y = y0 exp(-a (t - t0) - c (t^2 - t0^2) / 2))"""
+    import xitorch
+    from xitorch.integrate import solve_ivp
+    obs = Obs(desc)
+    rng = random.Random(desc["seed"])
+    tg = torch.Generator().manual_seed(desc["seed"])
+    ts_l, t0, T = _grid(rng, desc["nt"], desc["decreasing"])
+    state = {"n": 0, "raise_at": None}
+
+    def rhs(t, y, a, c):
+        state["n"] += 1
+        if state["raise_at"] is not None and state["n"] == state["raise_at"]:
+            raise _Injected("injected failure at evaluation %d" % state["n"])
+        return -(a + c * t) * y
+    a0 = 0.4 + 0.6 * torch.rand(2, generator=tg, dtype=DT)
+    c0 = 0.2 + 0.5 * torch.rand(2, generator=tg, dtype=DT)
+    holder = desc["holder"]
+    if holder == "em":
+        class E(xitorch.EditableModule):
+            def __init__(self, a, c):
+                self.a, self.lst = a, [c]
+
+            def f(self, t, y):
+                return rhs(t, y, self.a, self.lst[0])
+
+            def getparamnames(self, methodname, prefix=""):
+                return [prefix + "a", prefix + "lst[0]"]
+        a, c = a0.clone().requires_grad_(), c0.clone().requires_grad_()
+        obj = E(a, c)
+        fcn = obj.f
+    else:
+        class Inner(torch.nn.Module):
+            def __init__(self, c):
+                super().__init__()
+                self.c = torch.nn.Parameter(c.clone())
+
+        class M(torch.nn.Module):
+            def __init__(self, a, c):
+                super().__init__()
+                self.a = torch.nn.Parameter(a.clone())
+                if holder == "nn_nested":
+                    self.inner = Inner(c)
+                else:
+                    self.c = torch.nn.Parameter(c.clone())
+
+            def forward(self, t, y):
+                return rhs(t, y, self.a, self.inner.c if holder == "nn_nested" else self.c)
+        obj = M(a0, c0)
+        a, c = obj.a, (obj.inner.c if holder == "nn_nested" else obj.c)
+        fcn = obj.forward
+    y0 = (0.5 + torch.rand(2, generator=tg, dtype=DT)).requires_grad_()
+    ts = torch.tensor(ts_l, dtype=DT, requires_grad=True)
+    method = desc["method"]
+    opts = dict(rtol=1e-10, atol=1e-12) if method in ("rk45", "rk23") else {}
+    C = torch.randn(len(ts_l), 2, generator=tg, dtype=DT)
+    leaves = [a, c, y0, ts]
+    mech = "%s:%s:%s" % (method, holder, desc["phase"])
+
+    def full(create_graph):
+        marks = {}
+        yt = solve_ivp(fcn, ts, y0, method=method, **opts)
+        marks["fwd"] = state["n"]
+        g = torch.autograd.grad((yt * C).sum(), leaves, create_graph=create_graph, allow_unused=True)
+        marks["bwd"] = state["n"]
+        return yt, g, marks
+    cg = desc["phase"] == "bwd_cg"
+    try:
+        state["n"] = 0
+        yt1, g1, marks = full(cg)
+        yt1, g1 = yt1.detach(), [None if x is None else x.detach() for x in g1]
+    except Exception as e:
+        obs.exc_violation("abort:clean_run:" + mech, e)
+        obs.nontrivial = True
+        return obs.result()
+    lo, hi = (0, marks["fwd"]) if desc["phase"] == "fwd" else (marks["fwd"], marks["bwd"])
+    if hi <= lo:
+        obs.skip("no evaluation in the chosen phase")
+        return obs.result()
+    k = lo + 1 + int(desc["kfrac"] * (hi - lo - 1e-9))
+    state["n"], state["raise_at"] = 0, k
+    raised = False
+    try:
+        full(cg)
+    except _Injected:
+        raised = True
+    except Exception as e:
+        raised = state["n"] >= k
+        obs.note(wrapped="%s: %s" % (type(e).__name__, str(e)[:100]))
+    state["raise_at"] = None
+    if not raised:
+        obs.skip("injected failure not reached")
+        return obs.result()
+    obs.count("abort_injected_" + ("fwd" if desc["phase"] == "fwd" else "bwd"))
+    # ---- the same object again
+    try:
+        yt, g, _ = full(False)
+    except Exception as e:
+        obs.exc_violation("abort:reuse:" + mech, e)
+        obs.nontrivial = True
+        return obs.result()
+    a2, c2, y02, ts2 = [t.detach().clone().requires_grad_() for t in leaves]
+    tt = ts2.unsqueeze(-1)
+    yref = y02 * torch.exp(-a2 * (tt - ts2[0]) - 0.5 * c2 * (tt * tt - ts2[0] * ts2[0]))
+    gref = torch.autograd.grad((yref * C).sum(), [a2, c2, y02, ts2])
+    # (a) the repetition equals the clean first run on the same object (same deterministic computation)
+    err = float((yt.detach() - yt1).abs().max())
+    obs.check(err <= 1e-12 * (1 + float(yt1.abs().max())), "abort:value_vs_first_run:" + mech, "trajectory after an aborted call differs from the one before it by %.3e" % err)
+    for nm, gi, ri in zip(("a_obj", "c_obj", "y0", "ts"), g, g1):
+        if gi is None or ri is None:
+            continue
+        err = float((gi - ri).abs().max())
+        obs.check(err <= 1e-10 * (1 + float(ri.abs().max())), "abort:grad_vs_first_run:%s:%s" % (nm, mech),
+                  "after an aborted call, the gradient w.r.t. %s differs from the one of the identical call before it by %.3e" % (nm, err))
+    # (b) adaptive methods: also against the closed form
+    tolv = {"rk45": 1e-7, "rk23": 1e-6, "rk4": None, "rk38": None, "euler": None}[method]
+    if tolv is not None:
+        err = float((yt.detach() - yref.detach()).abs().max())
+        obs.check(err <= tolv * (1 + float(yref.detach().abs().max())), "abort:value:" + mech, "trajectory after an aborted call differs from the closed form by %.3e" % err)
+    for nm, gi, ri in zip(("a_obj", "c_obj", "y0", "ts"), g, gref):
+        obs.check(gi is not None, "abort:nograd:%s:%s" % (nm, mech), "after an aborted call, a fresh solve_ivp on the same object gives no gradient to %s" % nm)
+        if gi is None or tolv is None:
+            continue
+        err = float((gi - ri).abs().max())
+        sc = 1.0 + float(ri.abs().max())
+        obs.check(err <= 50 * tolv * sc, "abort:grad:%s:%s" % (nm, mech), "after an aborted call, the gradient w.r.t. %s differs from the closed form by %.3e (scale %.2e)" % (nm, err, sc))
+    obs.count("abort_reuse_compared")
+    obs.nontrivial = True
+    return obs.result()
+
+
 def run_case(desc):
     if desc["kind"] == "switch":
         return run_switch(desc)
+    if desc["kind"] == "abort_reuse":
+        return run_abort_reuse(desc)
     return run_sharedbck(desc)
